@@ -94,5 +94,329 @@ pub struct __DeserializeWith<'de> { pub value: Option<Vec<AuthenticatorTransport
 //@   rule R33
 //@   rule R36
 //@   rule R37
+
+// ---- C13 "deserialising those bytes yields an equal message": what `serialize` writes for q, presented on input (`wire_of`), has no
+// duplicates, has every required member, and each member's entry decodes to q's member (an absent optional member is absent and q's
+// member is its default, None).  With `visit_map`'s contract: a sound input of that shape is accepted and the message read equals q.
+// (proved by cases over which optional members are present)
+proof fn lemma_round_trip_1(q: Response)
+    requires q.extensions is Some
+    ensures ({ let e = wire_of(ctap_entries(q)); let n = e.len() as int;
+        &&& dup_free(e, n)
+        &&& member::<Vec<Version>>(e, n, Ident::versions) == Some(q.versions)
+        &&& q.extensions == (match member::<Option<Vec<Extension>>>(e, n, Ident::extensions) { Some(x) => x, None => <Option<Vec<Extension>> as VxDefault>::vx_default() })
+        &&& member::<Aaguid>(e, n, Ident::aaguid) == Some(q.aaguid)
+        &&& q.options == (match member::<Option<Options>>(e, n, Ident::options) { Some(x) => x, None => <Option<Options> as VxDefault>::vx_default() })
+        &&& q.max_msg_size == (match member::<Option<NonZeroU128>>(e, n, Ident::max_msg_size) { Some(x) => x, None => <Option<NonZeroU128> as VxDefault>::vx_default() })
+        &&& q.pin_protocols == (match member::<Option<Vec<u8>>>(e, n, Ident::pin_protocols) { Some(x) => x, None => <Option<Vec<u8>> as VxDefault>::vx_default() })
+    })
+{
+    broadcast use axiom_member_round_trip;
+    reveal_with_fuel(occ, 9);
+    reveal_with_fuel(dup_free, 9);
+    let e = wire_of(ctap_entries(q));
+    assert(e.len() == ctap_entries(q).len());
+    if q.options is Some {
+        if q.max_msg_size is Some {
+            if q.pin_protocols is Some {
+                if q.transports is Some {
+                    assert(ctap_entries(q).len() == 7);
+                    assert(e[0] == (DeKey::U(1), ser_leaf(q.versions)));
+                    assert(e[1] == (DeKey::U(2), ser_leaf(q.extensions)));
+                    assert(e[2] == (DeKey::U(3), ser_leaf(q.aaguid)));
+                    assert(e[3] == (DeKey::U(4), ser_leaf(q.options)));
+                    assert(e[4] == (DeKey::U(5), ser_leaf(q.max_msg_size)));
+                    assert(e[5] == (DeKey::U(6), ser_leaf(q.pin_protocols)));
+                    assert(e[6] == (DeKey::U(9), ser_leaf(q.transports)));
+                } else {
+                    assert(ctap_entries(q).len() == 6);
+                    assert(e[0] == (DeKey::U(1), ser_leaf(q.versions)));
+                    assert(e[1] == (DeKey::U(2), ser_leaf(q.extensions)));
+                    assert(e[2] == (DeKey::U(3), ser_leaf(q.aaguid)));
+                    assert(e[3] == (DeKey::U(4), ser_leaf(q.options)));
+                    assert(e[4] == (DeKey::U(5), ser_leaf(q.max_msg_size)));
+                    assert(e[5] == (DeKey::U(6), ser_leaf(q.pin_protocols)));
+                }
+            } else {
+                if q.transports is Some {
+                    assert(ctap_entries(q).len() == 6);
+                    assert(e[0] == (DeKey::U(1), ser_leaf(q.versions)));
+                    assert(e[1] == (DeKey::U(2), ser_leaf(q.extensions)));
+                    assert(e[2] == (DeKey::U(3), ser_leaf(q.aaguid)));
+                    assert(e[3] == (DeKey::U(4), ser_leaf(q.options)));
+                    assert(e[4] == (DeKey::U(5), ser_leaf(q.max_msg_size)));
+                    assert(e[5] == (DeKey::U(9), ser_leaf(q.transports)));
+                } else {
+                    assert(ctap_entries(q).len() == 5);
+                    assert(e[0] == (DeKey::U(1), ser_leaf(q.versions)));
+                    assert(e[1] == (DeKey::U(2), ser_leaf(q.extensions)));
+                    assert(e[2] == (DeKey::U(3), ser_leaf(q.aaguid)));
+                    assert(e[3] == (DeKey::U(4), ser_leaf(q.options)));
+                    assert(e[4] == (DeKey::U(5), ser_leaf(q.max_msg_size)));
+                }
+            }
+        } else {
+            if q.pin_protocols is Some {
+                if q.transports is Some {
+                    assert(ctap_entries(q).len() == 6);
+                    assert(e[0] == (DeKey::U(1), ser_leaf(q.versions)));
+                    assert(e[1] == (DeKey::U(2), ser_leaf(q.extensions)));
+                    assert(e[2] == (DeKey::U(3), ser_leaf(q.aaguid)));
+                    assert(e[3] == (DeKey::U(4), ser_leaf(q.options)));
+                    assert(e[4] == (DeKey::U(6), ser_leaf(q.pin_protocols)));
+                    assert(e[5] == (DeKey::U(9), ser_leaf(q.transports)));
+                } else {
+                    assert(ctap_entries(q).len() == 5);
+                    assert(e[0] == (DeKey::U(1), ser_leaf(q.versions)));
+                    assert(e[1] == (DeKey::U(2), ser_leaf(q.extensions)));
+                    assert(e[2] == (DeKey::U(3), ser_leaf(q.aaguid)));
+                    assert(e[3] == (DeKey::U(4), ser_leaf(q.options)));
+                    assert(e[4] == (DeKey::U(6), ser_leaf(q.pin_protocols)));
+                }
+            } else {
+                if q.transports is Some {
+                    assert(ctap_entries(q).len() == 5);
+                    assert(e[0] == (DeKey::U(1), ser_leaf(q.versions)));
+                    assert(e[1] == (DeKey::U(2), ser_leaf(q.extensions)));
+                    assert(e[2] == (DeKey::U(3), ser_leaf(q.aaguid)));
+                    assert(e[3] == (DeKey::U(4), ser_leaf(q.options)));
+                    assert(e[4] == (DeKey::U(9), ser_leaf(q.transports)));
+                } else {
+                    assert(ctap_entries(q).len() == 4);
+                    assert(e[0] == (DeKey::U(1), ser_leaf(q.versions)));
+                    assert(e[1] == (DeKey::U(2), ser_leaf(q.extensions)));
+                    assert(e[2] == (DeKey::U(3), ser_leaf(q.aaguid)));
+                    assert(e[3] == (DeKey::U(4), ser_leaf(q.options)));
+                }
+            }
+        }
+    } else {
+        if q.max_msg_size is Some {
+            if q.pin_protocols is Some {
+                if q.transports is Some {
+                    assert(ctap_entries(q).len() == 6);
+                    assert(e[0] == (DeKey::U(1), ser_leaf(q.versions)));
+                    assert(e[1] == (DeKey::U(2), ser_leaf(q.extensions)));
+                    assert(e[2] == (DeKey::U(3), ser_leaf(q.aaguid)));
+                    assert(e[3] == (DeKey::U(5), ser_leaf(q.max_msg_size)));
+                    assert(e[4] == (DeKey::U(6), ser_leaf(q.pin_protocols)));
+                    assert(e[5] == (DeKey::U(9), ser_leaf(q.transports)));
+                } else {
+                    assert(ctap_entries(q).len() == 5);
+                    assert(e[0] == (DeKey::U(1), ser_leaf(q.versions)));
+                    assert(e[1] == (DeKey::U(2), ser_leaf(q.extensions)));
+                    assert(e[2] == (DeKey::U(3), ser_leaf(q.aaguid)));
+                    assert(e[3] == (DeKey::U(5), ser_leaf(q.max_msg_size)));
+                    assert(e[4] == (DeKey::U(6), ser_leaf(q.pin_protocols)));
+                }
+            } else {
+                if q.transports is Some {
+                    assert(ctap_entries(q).len() == 5);
+                    assert(e[0] == (DeKey::U(1), ser_leaf(q.versions)));
+                    assert(e[1] == (DeKey::U(2), ser_leaf(q.extensions)));
+                    assert(e[2] == (DeKey::U(3), ser_leaf(q.aaguid)));
+                    assert(e[3] == (DeKey::U(5), ser_leaf(q.max_msg_size)));
+                    assert(e[4] == (DeKey::U(9), ser_leaf(q.transports)));
+                } else {
+                    assert(ctap_entries(q).len() == 4);
+                    assert(e[0] == (DeKey::U(1), ser_leaf(q.versions)));
+                    assert(e[1] == (DeKey::U(2), ser_leaf(q.extensions)));
+                    assert(e[2] == (DeKey::U(3), ser_leaf(q.aaguid)));
+                    assert(e[3] == (DeKey::U(5), ser_leaf(q.max_msg_size)));
+                }
+            }
+        } else {
+            if q.pin_protocols is Some {
+                if q.transports is Some {
+                    assert(ctap_entries(q).len() == 5);
+                    assert(e[0] == (DeKey::U(1), ser_leaf(q.versions)));
+                    assert(e[1] == (DeKey::U(2), ser_leaf(q.extensions)));
+                    assert(e[2] == (DeKey::U(3), ser_leaf(q.aaguid)));
+                    assert(e[3] == (DeKey::U(6), ser_leaf(q.pin_protocols)));
+                    assert(e[4] == (DeKey::U(9), ser_leaf(q.transports)));
+                } else {
+                    assert(ctap_entries(q).len() == 4);
+                    assert(e[0] == (DeKey::U(1), ser_leaf(q.versions)));
+                    assert(e[1] == (DeKey::U(2), ser_leaf(q.extensions)));
+                    assert(e[2] == (DeKey::U(3), ser_leaf(q.aaguid)));
+                    assert(e[3] == (DeKey::U(6), ser_leaf(q.pin_protocols)));
+                }
+            } else {
+                if q.transports is Some {
+                    assert(ctap_entries(q).len() == 4);
+                    assert(e[0] == (DeKey::U(1), ser_leaf(q.versions)));
+                    assert(e[1] == (DeKey::U(2), ser_leaf(q.extensions)));
+                    assert(e[2] == (DeKey::U(3), ser_leaf(q.aaguid)));
+                    assert(e[3] == (DeKey::U(9), ser_leaf(q.transports)));
+                } else {
+                    assert(ctap_entries(q).len() == 3);
+                    assert(e[0] == (DeKey::U(1), ser_leaf(q.versions)));
+                    assert(e[1] == (DeKey::U(2), ser_leaf(q.extensions)));
+                    assert(e[2] == (DeKey::U(3), ser_leaf(q.aaguid)));
+                }
+            }
+        }
+    }
+}
+proof fn lemma_round_trip_0(q: Response)
+    requires q.extensions is None
+    ensures ({ let e = wire_of(ctap_entries(q)); let n = e.len() as int;
+        &&& dup_free(e, n)
+        &&& member::<Vec<Version>>(e, n, Ident::versions) == Some(q.versions)
+        &&& q.extensions == (match member::<Option<Vec<Extension>>>(e, n, Ident::extensions) { Some(x) => x, None => <Option<Vec<Extension>> as VxDefault>::vx_default() })
+        &&& member::<Aaguid>(e, n, Ident::aaguid) == Some(q.aaguid)
+        &&& q.options == (match member::<Option<Options>>(e, n, Ident::options) { Some(x) => x, None => <Option<Options> as VxDefault>::vx_default() })
+        &&& q.max_msg_size == (match member::<Option<NonZeroU128>>(e, n, Ident::max_msg_size) { Some(x) => x, None => <Option<NonZeroU128> as VxDefault>::vx_default() })
+        &&& q.pin_protocols == (match member::<Option<Vec<u8>>>(e, n, Ident::pin_protocols) { Some(x) => x, None => <Option<Vec<u8>> as VxDefault>::vx_default() })
+    })
+{
+    broadcast use axiom_member_round_trip;
+    reveal_with_fuel(occ, 9);
+    reveal_with_fuel(dup_free, 9);
+    let e = wire_of(ctap_entries(q));
+    assert(e.len() == ctap_entries(q).len());
+    if q.options is Some {
+        if q.max_msg_size is Some {
+            if q.pin_protocols is Some {
+                if q.transports is Some {
+                    assert(ctap_entries(q).len() == 6);
+                    assert(e[0] == (DeKey::U(1), ser_leaf(q.versions)));
+                    assert(e[1] == (DeKey::U(3), ser_leaf(q.aaguid)));
+                    assert(e[2] == (DeKey::U(4), ser_leaf(q.options)));
+                    assert(e[3] == (DeKey::U(5), ser_leaf(q.max_msg_size)));
+                    assert(e[4] == (DeKey::U(6), ser_leaf(q.pin_protocols)));
+                    assert(e[5] == (DeKey::U(9), ser_leaf(q.transports)));
+                } else {
+                    assert(ctap_entries(q).len() == 5);
+                    assert(e[0] == (DeKey::U(1), ser_leaf(q.versions)));
+                    assert(e[1] == (DeKey::U(3), ser_leaf(q.aaguid)));
+                    assert(e[2] == (DeKey::U(4), ser_leaf(q.options)));
+                    assert(e[3] == (DeKey::U(5), ser_leaf(q.max_msg_size)));
+                    assert(e[4] == (DeKey::U(6), ser_leaf(q.pin_protocols)));
+                }
+            } else {
+                if q.transports is Some {
+                    assert(ctap_entries(q).len() == 5);
+                    assert(e[0] == (DeKey::U(1), ser_leaf(q.versions)));
+                    assert(e[1] == (DeKey::U(3), ser_leaf(q.aaguid)));
+                    assert(e[2] == (DeKey::U(4), ser_leaf(q.options)));
+                    assert(e[3] == (DeKey::U(5), ser_leaf(q.max_msg_size)));
+                    assert(e[4] == (DeKey::U(9), ser_leaf(q.transports)));
+                } else {
+                    assert(ctap_entries(q).len() == 4);
+                    assert(e[0] == (DeKey::U(1), ser_leaf(q.versions)));
+                    assert(e[1] == (DeKey::U(3), ser_leaf(q.aaguid)));
+                    assert(e[2] == (DeKey::U(4), ser_leaf(q.options)));
+                    assert(e[3] == (DeKey::U(5), ser_leaf(q.max_msg_size)));
+                }
+            }
+        } else {
+            if q.pin_protocols is Some {
+                if q.transports is Some {
+                    assert(ctap_entries(q).len() == 5);
+                    assert(e[0] == (DeKey::U(1), ser_leaf(q.versions)));
+                    assert(e[1] == (DeKey::U(3), ser_leaf(q.aaguid)));
+                    assert(e[2] == (DeKey::U(4), ser_leaf(q.options)));
+                    assert(e[3] == (DeKey::U(6), ser_leaf(q.pin_protocols)));
+                    assert(e[4] == (DeKey::U(9), ser_leaf(q.transports)));
+                } else {
+                    assert(ctap_entries(q).len() == 4);
+                    assert(e[0] == (DeKey::U(1), ser_leaf(q.versions)));
+                    assert(e[1] == (DeKey::U(3), ser_leaf(q.aaguid)));
+                    assert(e[2] == (DeKey::U(4), ser_leaf(q.options)));
+                    assert(e[3] == (DeKey::U(6), ser_leaf(q.pin_protocols)));
+                }
+            } else {
+                if q.transports is Some {
+                    assert(ctap_entries(q).len() == 4);
+                    assert(e[0] == (DeKey::U(1), ser_leaf(q.versions)));
+                    assert(e[1] == (DeKey::U(3), ser_leaf(q.aaguid)));
+                    assert(e[2] == (DeKey::U(4), ser_leaf(q.options)));
+                    assert(e[3] == (DeKey::U(9), ser_leaf(q.transports)));
+                } else {
+                    assert(ctap_entries(q).len() == 3);
+                    assert(e[0] == (DeKey::U(1), ser_leaf(q.versions)));
+                    assert(e[1] == (DeKey::U(3), ser_leaf(q.aaguid)));
+                    assert(e[2] == (DeKey::U(4), ser_leaf(q.options)));
+                }
+            }
+        }
+    } else {
+        if q.max_msg_size is Some {
+            if q.pin_protocols is Some {
+                if q.transports is Some {
+                    assert(ctap_entries(q).len() == 5);
+                    assert(e[0] == (DeKey::U(1), ser_leaf(q.versions)));
+                    assert(e[1] == (DeKey::U(3), ser_leaf(q.aaguid)));
+                    assert(e[2] == (DeKey::U(5), ser_leaf(q.max_msg_size)));
+                    assert(e[3] == (DeKey::U(6), ser_leaf(q.pin_protocols)));
+                    assert(e[4] == (DeKey::U(9), ser_leaf(q.transports)));
+                } else {
+                    assert(ctap_entries(q).len() == 4);
+                    assert(e[0] == (DeKey::U(1), ser_leaf(q.versions)));
+                    assert(e[1] == (DeKey::U(3), ser_leaf(q.aaguid)));
+                    assert(e[2] == (DeKey::U(5), ser_leaf(q.max_msg_size)));
+                    assert(e[3] == (DeKey::U(6), ser_leaf(q.pin_protocols)));
+                }
+            } else {
+                if q.transports is Some {
+                    assert(ctap_entries(q).len() == 4);
+                    assert(e[0] == (DeKey::U(1), ser_leaf(q.versions)));
+                    assert(e[1] == (DeKey::U(3), ser_leaf(q.aaguid)));
+                    assert(e[2] == (DeKey::U(5), ser_leaf(q.max_msg_size)));
+                    assert(e[3] == (DeKey::U(9), ser_leaf(q.transports)));
+                } else {
+                    assert(ctap_entries(q).len() == 3);
+                    assert(e[0] == (DeKey::U(1), ser_leaf(q.versions)));
+                    assert(e[1] == (DeKey::U(3), ser_leaf(q.aaguid)));
+                    assert(e[2] == (DeKey::U(5), ser_leaf(q.max_msg_size)));
+                }
+            }
+        } else {
+            if q.pin_protocols is Some {
+                if q.transports is Some {
+                    assert(ctap_entries(q).len() == 4);
+                    assert(e[0] == (DeKey::U(1), ser_leaf(q.versions)));
+                    assert(e[1] == (DeKey::U(3), ser_leaf(q.aaguid)));
+                    assert(e[2] == (DeKey::U(6), ser_leaf(q.pin_protocols)));
+                    assert(e[3] == (DeKey::U(9), ser_leaf(q.transports)));
+                } else {
+                    assert(ctap_entries(q).len() == 3);
+                    assert(e[0] == (DeKey::U(1), ser_leaf(q.versions)));
+                    assert(e[1] == (DeKey::U(3), ser_leaf(q.aaguid)));
+                    assert(e[2] == (DeKey::U(6), ser_leaf(q.pin_protocols)));
+                }
+            } else {
+                if q.transports is Some {
+                    assert(ctap_entries(q).len() == 3);
+                    assert(e[0] == (DeKey::U(1), ser_leaf(q.versions)));
+                    assert(e[1] == (DeKey::U(3), ser_leaf(q.aaguid)));
+                    assert(e[2] == (DeKey::U(9), ser_leaf(q.transports)));
+                } else {
+                    assert(ctap_entries(q).len() == 2);
+                    assert(e[0] == (DeKey::U(1), ser_leaf(q.versions)));
+                    assert(e[1] == (DeKey::U(3), ser_leaf(q.aaguid)));
+                }
+            }
+        }
+    }
+}
+pub proof fn lemma_round_trip(q: Response)
+    ensures ({ let e = wire_of(ctap_entries(q)); let n = e.len() as int;
+        &&& dup_free(e, n)
+        &&& member::<Vec<Version>>(e, n, Ident::versions) == Some(q.versions)
+        &&& q.extensions == (match member::<Option<Vec<Extension>>>(e, n, Ident::extensions) { Some(x) => x, None => <Option<Vec<Extension>> as VxDefault>::vx_default() })
+        &&& member::<Aaguid>(e, n, Ident::aaguid) == Some(q.aaguid)
+        &&& q.options == (match member::<Option<Options>>(e, n, Ident::options) { Some(x) => x, None => <Option<Options> as VxDefault>::vx_default() })
+        &&& q.max_msg_size == (match member::<Option<NonZeroU128>>(e, n, Ident::max_msg_size) { Some(x) => x, None => <Option<NonZeroU128> as VxDefault>::vx_default() })
+        &&& q.pin_protocols == (match member::<Option<Vec<u8>>>(e, n, Ident::pin_protocols) { Some(x) => x, None => <Option<Vec<u8>> as VxDefault>::vx_default() })
+    })
+{
+    if q.extensions is Some {
+        lemma_round_trip_1(q);
+    } else {
+        lemma_round_trip_0(q);
+    }
+}
 } // verus!
 fn main() {}
